@@ -329,7 +329,7 @@ def _const_idents(fn, operand, proms, depth=0):
             if site.is_term:
                 continue
             rv = site.node["rv"]
-            if rv["k"] == "use":
+            if rv["k"] in ("use", "cast"):
                 if "c" in rv["op"]:
                     from_const(rv["op"]["c"])
                 else:
